@@ -39,7 +39,7 @@ func init() {
 			ruleNilNil(r, []string{enginePkg, metricPkg, dockerlogPkg}, map[string]string{})
 			ruleParserErrProp(r)
 			ruleJSONLeaves(r)
-			ruleErrorPathKeepsLine(r, []string{"UnpackExtractor", "LineFormat"})
+			ruleErrorPathKeepsLine(r, []string{"DurationLabelFilter", "BytesLabelFilter", "NumberLabelFilter", "IPLabelFilter", "JSONExtractor", "LogfmtExtractor", "UnpackExtractor", "LineFormat"})
 			ruleFirstLastGuards(r)
 			ruleRenderIndex(r)
 			rulePFAlloc(r, []string{enginePkg, metricPkg, dockerlogPkg, logqlPkg, lexerPkg, itersPkg, "internal/logql/logqlengine/jsonexpr", "internal/logql/logqlengine/logqlpattern", "internal/otelstorage"}, 5)
